@@ -148,8 +148,69 @@ def _run(ctx, hist, compare=True):
     return res
 
 
+def gen_pipelined(ctx):
+    """login sequences sent in one segment (no waiting for replies), ended by protected probes"""
+    hist = []
+    L = ctx.pick(3, 4)
+    for table in ("anon", "noanon"):
+        for k in range(1, L + 1):
+            for combo in itertools.product(["USER alice", "USER bob", "USER nobody", "PASS secret", "PASS wrong", "USER carol", "PASS"], repeat=k):
+                hist.append((table, list(combo) + ["MKD zz", "PWD"]))
+    return hist
+
+
+def pipelined_oracle(users, cmds, snap):
+    """sequential semantics must hold for pipelined input too: state after all commands = authSpec"""
+    spec_after = auth_spec(users, cmds + ["@end"])[-1]
+    if snap["alive"] != "1":
+        return None
+    if (snap["logged"] == "1") != spec_after:
+        return {"what": "after the pipelined lines %r the login flag is %s but the history %s a completed login" % (cmds, snap["logged"], "is" if spec_after else "is not"), "signature": "C03:pipelined-login-flag-%s" % snap["logged"]}
+    if not spec_after and snap["fs"] != S.canon_tree(S.TREE):
+        return {"what": "tree changed by pipelined lines %r without a completed login" % (cmds,), "signature": "C03:pipelined-tree-changed"}
+    if spec_after:
+        # the authorised identity must be the one the history names
+        pending = None
+        for c in cmds:
+            first, _, rest = c.rstrip().partition(" ")
+            if first.lower() == "user":
+                cand = None
+                for i, u in enumerate(users):
+                    if u.login is None and cand is None:
+                        cand = i
+                    elif u.login == rest:
+                        cand = i
+                        break
+                pending = cand
+        if pending is not None and snap["user"] != str(pending):
+            return {"what": "pipelined lines %r authorised user #%s, the history names #%s" % (cmds, snap["user"], pending), "signature": "C03:pipelined-wrong-identity"}
+    return None
+
+
+def _run_pipelined(ctx):
+    res = Result()
+    hist = gen_pipelined(ctx)
+    jobs = [((S.USERS_ANON if t == "anon" else S.USERS_NOANON), S.TREE, cmds) for t, cmds in hist]
+    outs = S.run_many_pipelined(jobs)
+    for (table, cmds), snap in zip(hist, outs):
+        res.cases += 1
+        res.count("pipelined")
+        if isinstance(snap, str):
+            res.disagreements.append({"correspondence": "harness", "input": cmds, "impl": snap})
+            continue
+        res.distinct.add(("pipelined", table, tuple(cmds)))
+        users = S.USERS_ANON if table == "anon" else S.USERS_NOANON
+        f = pipelined_oracle(users, cmds, snap)
+        if f:
+            f["input"] = {"table": table, "commands": cmds, "pipelined": True}
+            res.oracle_failures.append(f)
+    return res
+
+
 def correspondence(ctx):
-    return _run(ctx, gen(ctx))
+    r = _run(ctx, gen(ctx))
+    r.merge(_run_pipelined(ctx))
+    return r
 
 
 def search(ctx, prior):
@@ -158,12 +219,19 @@ def search(ctx, prior):
         inp = d.get("input")
         if isinstance(inp, dict) and "commands" in inp:
             hist.insert(0, (inp.get("table", "anon"), inp["commands"]))
-    return _run(ctx, hist, compare=False)
+    r = _run(ctx, hist, compare=False)
+    r.merge(_run_pipelined(ctx))
+    return r
 
 
 def replay(ctx, doc):
     inp = doc["failure"]["input"]
     users = S.USERS_ANON if inp.get("table", "anon") == "anon" else S.USERS_NOANON
+    if inp.get("pipelined"):
+        snap = S.run_pipelined(users, S.TREE, inp["commands"])
+        f = pipelined_oracle(users, inp["commands"], snap)
+        print(snap, f)
+        return f is not None
     snaps = S.run_history(users, S.TREE, c05.to_events(inp["commands"]))
     for c, s in zip(["@connect"] + inp["commands"], snaps):
         print(repr(c), "->", s and (s["replies"], "logged=" + s["logged"], "spy=" + s["spy"]))
